@@ -173,7 +173,12 @@ AID = {"nt": 0, "tr": 1, "pe": 2, "ev": 3, "zz": 9}
 
 
 class GStub(mosaik_api_v3.Simulator):
-    META = {"api_version": "3.0", "type": "hybrid", "models": {"M": {"public": True, "params": [], **ATTR_META}}}
+    # model P: a parent whose create() returns a child of model M (the grid -> bus pattern); its attribute roles differ from
+    # M's on purpose (nt is a trigger, pe is non-persistent, pp exists only here), so that a connection to the child
+    # judged by the parent's description is judged wrongly
+    META = {"api_version": "3.0", "type": "hybrid", "models": {
+        "M": {"public": True, "params": [], **ATTR_META},
+        "P": {"public": True, "params": [], "attrs": ["nt", "tr", "pe", "ev", "pp"], "trigger": ["nt"], "non-persistent": ["pe"]}}}
 
     def __init__(self):
         import copy
@@ -183,6 +188,8 @@ class GStub(mosaik_api_v3.Simulator):
         return self.meta
 
     def create(self, num, model, **kw):
+        if model == "P":
+            return [{"eid": f"p{i}", "type": "P", "children": [{"eid": f"{i}", "type": "M"}]} for i in range(num)]
         return [{"eid": f"{i}", "type": model} for i in range(num)]
 
     def step(self, time, inputs, max_advance):
@@ -199,14 +206,16 @@ MODEL_DESC_LINE = "0 4 0 1 2 3 1 1 - - 1 3"   # any=0 attrs=[0,1,2,3] trigger=[1
 PLACEMENTS = [[], [0], [1], [0, 0], [0, 1]]
 
 
-def start_in_groups(w, placements):
-    """Start one GStub per placement (a group path), creating the group tree with world.group()."""
+def start_in_groups(w, placements, via_parent=False):
+    """Start one GStub per placement (a group path), creating the group tree with world.group().
+    via_parent: the entity is the child (model M) of an entity of model P."""
     ents = [None] * len(placements)
 
     def rec(prefix):
         for i, p in enumerate(placements):
             if list(p) == prefix:
-                ents[i] = w.start("G", sim_id=f"S{i}").M()
+                mf = w.start("G", sim_id=f"S{i}")
+                ents[i] = mf.P().children[0] if via_parent else mf.M()
         children = sorted(set(p[len(prefix)] for p in placements if len(p) > len(prefix) and list(p[:len(prefix)]) == prefix))
         for c in range((max(children) + 1) if children else 0):
             with w.group():
